@@ -1,16 +1,49 @@
 // The operation interpreter of the IMPLEMENTATION side: one text operation in, the real engine's
 // canonicalised answer out.  Generators build operations and call `apply`; `harness replay` feeds
 // recorded operations through the same function.
+use crate::board::Board;
+use crate::eval::Evaluator;
+use crate::pieces::{Color, Piece};
 use crate::text::*;
 use crate::transposition::TranspositionTable;
+use crate::uci::Flounder;
+use crate::zobrist::ZobristTable;
 
 pub struct ImplState {
     pub tt: TranspositionTable,
+    pub evaluator: Evaluator,
+    pub zobrist: ZobristTable,
+    pub uci: Flounder,
+}
+
+/// the side-flipped board (only the side to move differs)
+pub fn flip_side(b: &Board) -> Board { let mut c = *b; c.change_color(); c }
+
+/// the mirrored board: ranks reversed (square ^ 56), colours exchanged, side exchanged, rights exchanged
+pub fn mirror(b: &Board) -> Board {
+    let mut pcs = [0u64; 6];
+    for (i, p) in PIECES.iter().enumerate() { pcs[i] = b.bb_piece(*p).swap_bytes(); }
+    let white = b.bb_color(Color::Black).swap_bytes();
+    let black = b.bb_color(Color::White).swap_bytes();
+    let (wk, wq) = b.castling_ability(Color::White);
+    let (bk, bq) = b.castling_ability(Color::Black);
+    let mask = (bk as u8) | (bq as u8) << 1 | (wk as u8) << 2 | (wq as u8) << 3;
+    board_from_raw(pcs, white, black, !b.active_color, mask, b.en_passant_target.map(|s| s ^ 56), b.halfmove_clock as u32, b.fullmove_counter as u32).unwrap()
+}
+
+pub fn zobrist_keys_text(z: &ZobristTable) -> String {
+    let (pk, w, ck, ek) = z.verif_keys();
+    let mut v: Vec<String> = Vec::with_capacity(837);
+    for c in 0..2 { for p in 0..6 { for s in 0..64 { v.push(pk[c][p][s].to_string()); } } }
+    v.push(w.to_string());
+    for c in 0..2 { for s in 0..2 { v.push(ck[c][s].to_string()); } }
+    for s in 0..64 { v.push(ek[s].to_string()); }
+    v.join(" ")
 }
 
 impl ImplState {
     pub fn new() -> Self {
-        ImplState { tt: TranspositionTable::new() }
+        ImplState { tt: TranspositionTable::new(), evaluator: Evaluator::new(), zobrist: ZobristTable::new(), uci: Flounder::new() }
     }
 
     pub fn apply(&mut self, line: &str) -> String {
@@ -18,6 +51,7 @@ impl ImplState {
         if t.is_empty() { return "bad-op".into(); }
         match t[0] {
             "case" => "ok".into(),
+            // ------------------------------------------------------------ C15
             "tt.new" => { self.tt = TranspositionTable::new(); "ok".into() }
             "tt.store" if t.len() == 6 => {
                 let (k, ev, mv, d, b) = (t[1].parse::<u64>(), t[2].parse::<i32>(), parse_opt_mv(t[3]), t[4].parse::<u8>(), parse_bounds(t[5]));
@@ -30,6 +64,81 @@ impl ImplState {
                 Ok(k) => entry_text(self.tt.retrieve(k)),
                 _ => "bad-op".into(),
             },
+            // ------------------------------------------------------------ C14
+            // one shared Evaluator for the whole run: earlier calls must not influence later ones
+            "eval" if t.len() == 2 => match parse_board(t[1]) {
+                Some(b) => self.evaluator.evaluate(&b).to_string(),
+                None => "bad-op".into(),
+            },
+            // score, score of the side-flipped board, score of the mirrored board
+            "eval.rel" if t.len() == 2 => match parse_board(t[1]) {
+                Some(b) => {
+                    let e = self.evaluator.evaluate(&b);
+                    let f = self.evaluator.evaluate(&flip_side(&b));
+                    let m = self.evaluator.evaluate(&mirror(&b));
+                    format!("{} {} {}", e, f, m)
+                }
+                None => "bad-op".into(),
+            },
+            // ------------------------------------------------------------ C11
+            // install the given 837 keys (the generator obtained them from a REAL ZobristTable::new() draw)
+            "zob.keys" if t.len() == 838 => {
+                let v: Vec<u64> = t[1..].iter().filter_map(|x| x.parse().ok()).collect();
+                if v.len() != 837 { return "bad-op".into(); }
+                let mut pk = [[[0u64; 64]; 6]; 2];
+                let mut i = 0;
+                for c in 0..2 { for p in 0..6 { for sq in 0..64 { pk[c][p][sq] = v[i]; i += 1; } } }
+                let w = v[i]; i += 1;
+                let mut ck = [[0u64; 2]; 2];
+                for c in 0..2 { for sd in 0..2 { ck[c][sd] = v[i]; i += 1; } }
+                let mut ek = [0u64; 64];
+                for sq in 0..64 { ek[sq] = v[i]; i += 1; }
+                self.zobrist = ZobristTable::verif_from_keys(pk, w, ck, ek);
+                "ok".into()
+            }
+            "zob.same" | "zob.diff" if t.len() == 3 => match (parse_board(t[1]), parse_board(t[2])) {
+                (Some(a), Some(b)) => if self.zobrist.hash(&a) == self.zobrist.hash(&b) { "same".into() } else { "differ".into() },
+                _ => "bad-op".into(),
+            },
+            "zob.hash" if t.len() == 2 => match parse_board(t[1]) {
+                Some(b) => self.zobrist.hash(&b).to_string(),
+                None => "bad-op".into(),
+            },
+            // ------------------------------------------------------------ C12
+            // go.params <w|b> <go tokens...> : the parameters the REAL parser hands to the search
+            "go.params" if t.len() >= 2 => {
+                let side = if t[1] == "w" { "w" } else { "b" };
+                self.uci.verif_handle_command(&format!("position fen 4k3/8/8/8/8/8/8/4K3 {} - - 0 1", side));
+                match self.uci.verif_go_budget(&t[2..].join(" ")) {
+                    Some((d, Some(tl))) => format!("{} {}", d, tl.as_millis()),
+                    Some((d, None)) => format!("{} none", d),
+                    None => "no-go".into(),
+                }
+            }
+            // go.pair <w|b> <go tokens A> | <go tokens B> : two well-formed clock commands that differ only in the
+            // OPPONENT's values.  Answer: are the two budgets the same; does each fit the mover's own remaining time
+            // (<= it, and < it when it is positive)
+            "go.pair" if t.len() >= 2 => {
+                let side = if t[1] == "w" { "w" } else { "b" };
+                self.uci.verif_handle_command(&format!("position fen 4k3/8/8/8/8/8/8/4K3 {} - - 0 1", side));
+                let own = if side == "w" { "wtime" } else { "btime" };
+                let rest = t[2..].join(" ");
+                let halves: Vec<&str> = rest.split(" | ").collect();
+                if halves.len() != 2 { return "bad-op".into(); }
+                let mut res: Vec<(Option<u128>, bool)> = Vec::new();
+                for h in &halves {
+                    let toks: Vec<&str> = h.split_whitespace().collect();
+                    let mut own_time: u64 = 0;
+                    let mut i = 1;
+                    while i + 1 < toks.len() { if toks[i] == own { own_time = toks[i + 1].parse().unwrap_or(0); } i += 2; }
+                    match self.uci.verif_go_budget(h) {
+                        Some((_, Some(tl))) => { let ms = tl.as_millis(); res.push((Some(ms), ms <= own_time as u128 && (own_time == 0 || ms < own_time as u128))); }
+                        Some((_, None)) => res.push((None, true)),
+                        None => return "no-go".into(),
+                    }
+                }
+                format!("{} {} {}", if res[0].0 == res[1].0 { "same" } else { "differ" }, if res[0].1 { "fits" } else { "exceeds" }, if res[1].1 { "fits" } else { "exceeds" })
+            }
             _ => "bad-op".into(),
         }
     }
